@@ -42,7 +42,7 @@ struct Stats {
   std::map<std::string, long long> c;
   void inc(const std::string &k, long long n = 1) { c[k] += n; }
   void max(const std::string &k, long long v) { auto &x = c[k]; if (v > x) x = v; }
-  void merge(const Stats &o) { for (auto &kv : o.c) c[kv.first] += kv.second; }
+  void merge(const Stats &o) { for (auto &kv : o.c) { if (kv.first.rfind("max_", 0) == 0) max(kv.first, kv.second); else c[kv.first] += kv.second; } }
 };
 
 struct Outcome {
